@@ -593,6 +593,8 @@ fn all_session_scenarios() -> Vec<String> {
         for k in PERM_KEYS { for c in ["get", "set", "increment", "remove", "watch"] { out.push(format!("{}|{} {}{}", l, c, k, if c == "set" { " v" } else if c == "increment" { " 1" } else { "" })); } }
         for pat in ["keys g*", "keys *e", "keys on", "keys go*"] { out.push(format!("{}|{}", l, pat)); }
         for f in USE_FAIL { for a in ["get secret", "get public1", "set secret x", "keys", "remove sea"] { out.push(format!("{}|{};{}", l, f, a)); } }
+        // a session that registers itself as arbiter (or watches the conflict channel) gains no right to write
+        for pre in ["arbiter", "watch $conflicts"] { for r in RESOLVE_CMDS { out.push(format!("{}|{};{}", l, pre, r)); } }
         for a in ["set public1 y", "remove public1", "remove secret", "increment sea 1"] { for b in ["keys", "keys *", "get public1", "get secret", "keys pub*"] { out.push(format!("{}|{};{}", l, a, b)); } }
         if deep() {
             for a in DATA_CMDS.iter().chain(USE_FAIL.iter()) { for b in DATA_CMDS.iter().chain(ADMIN_CMDS.iter()) { out.push(format!("{}|{};{}", l, a, b)); } }
